@@ -64,3 +64,21 @@ def srm_records(trc_path):
         if recs and recs[0]["ev"] == "Ctor":
             out.append(recs)
     return out
+
+
+def seg_records(trc_path, completed=True):
+    """Split the 'seg' stream by instance (one per InitSeg). Returns list of per-instance records."""
+    inst, order = {}, []
+    for seq, tid, stream, iid, ev, args in vlib.read_trace(trc_path, "seg"):
+        if iid not in inst:
+            inst[iid] = []
+            order.append(iid)
+        inst[iid].append({"ev": ev, "t": tid, "a": args})
+    out = []
+    for iid in order:
+        recs = inst[iid]
+        if recs and recs[0]["ev"] == "InitSeg":
+            if completed:
+                recs.append({"ev": "EndSeg", "t": recs[0]["t"], "a": []})
+            out.append(recs)
+    return out
